@@ -61,9 +61,10 @@ SubsetsUpTo(S, n) == {x \in SUBSET S : Cardinality(x) <= n}
 (* of nested collections are drawn from a thinned member set so that the   *)
 (* universe stays enumerable.  Nulls occur as members.                     *)
 (***************************************************************************)
-RECURSIVE Vals(_, _), Members_(_, _)
+RECURSIVE Vals(_, _), Members_(_, _), TupProd(_, _, _)
 Members_(t, w) ==   \* candidate member values of type t (known + null)
-  IF IsPrimT(t) THEN PrimMembers(t) \cup {Null(t)}
+  IF t.k = "dynamic" THEN {Null(t)}       \* a known structure holds only untyped nulls (or DynamicVal, a weakening) at a placeholder position
+  ELSE IF IsPrimT(t) THEN PrimMembers(t) \cup {Null(t)}
   ELSE TakeN(Vals(t, w), IF Thorough THEN 4 ELSE 3) \cup {Null(t)}
 
 Vals(t, w) ==
@@ -74,11 +75,14 @@ Vals(t, w) ==
     [] t.k = "tuple" ->
          IF Len(t.es) = 0 THEN {SeqV(t, <<>>)}
          ELSE IF Len(t.es) = 1 THEN {SeqV(t, <<x>>) : x \in Members_(t.es[1], w)}
-         ELSE {SeqV(t, <<x, y>>) : x \in Members_(t.es[1], w), y \in Members_(t.es[2], w)}
+         ELSE IF Len(t.es) = 2 THEN {SeqV(t, <<x, y>>) : x \in Members_(t.es[1], w), y \in Members_(t.es[2], w)}
+         ELSE {SeqV(t, s) : s \in TupProd(t.es, w, 1)}
     [] t.k = "object" ->
          LET D == DOMAIN t.as IN
          {MapV(t, f) : f \in {g \in [D -> UNION {Members_(t.as[n], w) : n \in D}] : \A n \in D : g[n] \in Members_(t.as[n], w)}}
     [] OTHER -> {}
+
+TupProd(es, w, i) == IF i > Len(es) THEN {<<>>} ELSE {<<x>> \o r : x \in TakeN(Members_(es[i], w), 2), r \in TupProd(es, w, i + 1)}
 
 \* The value types used as operands
 VT1 == {TList(TNum), TList(TStr), TSet(TNum), TSet(TStr), TMap(TNum), TMap(TStr), TMap(TBool),
